@@ -179,9 +179,50 @@ def check_lints(check, funcs, rule_prefix: str = ''):
         check.ob('R-ONEPASS', fi, f'iterable parameter {p}', False,
                  f'{why}: a one-shot iterable (generator, map, filter, islice) is exhausted by the first use, so later uses see nothing')
     # dtype-preserving copies matter where client state of mixed dtype is copied (C02); a sum of trees (tree_sum) may start from x + 0
+    for x, name in possibly_empty_indexing(ff):
+      check.ob('R-EMPTY', fi, txt(x), False,
+               f'`{name}` is created empty and only grows inside a loop: when the loop runs zero times (a length-1 input, an empty collection) '
+               f'`{txt(x)}` raises IndexError', node=x)
     for c, how in (bad_copies(ff) if getattr(check, 'prop', getattr(check, 'property_id', '')) in ('C02',) else []):
       check.ob('R-COPY', fi, txt(c)[:80], False,
                f'`{how}` is not a copy: it promotes bool leaves to integers (and weak types), so the copied state no longer has the dtype of '
                'the original', node=c)
   check.ob('R-DISCARD', ('fedjax', '<functions in scope>'), f'{n} functions', True,
            'no discarded results, overrides agree with their base, iterable parameters are consumed once, copies copy', nontrivial=False)
+
+
+def possibly_empty_indexing(ff: FuncFlow) -> List[Tuple[ast.Subscript, str]]:
+  """X[0] / X[-1] / X[k] on a list that is created empty and only grows inside loops (so it is empty whenever the loops run zero
+  times), with no emptiness test of X guarding the access."""
+  fi = ff.fi
+  empties = {}
+  for nid, ds in ff.rd.defs_at.items():
+    for d in ds:
+      if d.kind == 'assign' and d.index is None and isinstance(d.value, ast.List) and not d.value.elts and wmean._loop_of(ff, d.node.ast) is None:
+        empties.setdefault(d.name, []).append(d)
+  out = []
+  for name, ds in empties.items():
+    all_defs = [d for dd in ff.rd.defs_at.values() for d in dd if d.name == name]
+    if len(all_defs) != 1:
+      continue
+    grows = [c for _, c in ff.calls() if isinstance(c.func, ast.Attribute) and c.func.attr in ('append', 'extend', 'insert') and isinstance(
+        c.func.value, ast.Name) and c.func.value.id == name]
+    if not grows or any(wmean._loop_of(ff, c) is None for c in grows):
+      continue
+    for nd in ff.cfg.nodes:
+      if nd.ast is None:
+        continue
+      for x in nd.walk():
+        if isinstance(x, ast.Subscript) and isinstance(x.value, ast.Name) and x.value.id == name and isinstance(x.ctx, ast.Load):
+          try:
+            idx = ast.literal_eval(x.slice)
+          except Exception:  # pylint: disable=broad-except
+            continue
+          if not isinstance(idx, int):
+            continue
+          if wmean._loop_of(ff, x) is not None and any(wmean._loop_of(ff, c) is wmean._loop_of(ff, x) for c in grows):
+            continue
+          guarded = any(any(isinstance(y, ast.Name) and y.id == name for y in ast.walk(t)) for t, pol in guards_of(ff, x))
+          if not guarded:
+            out.append((x, name))
+  return out
